@@ -59,10 +59,13 @@ def near_misses(rng, ents, k):
         segs = e.split("/")
         i = rng.randrange(len(segs))
         r = rng.random()
+        if r < 0.12:
+            out.append(e + rng.choice(["\n", "\n", " ", "\nzz", "\r\n"]))      # unstripped file lines
+            continue
         if r < 0.3:
             segs[i] = segs[i] + rng.choice(["x", "_", "0", "-b"])
         elif r < 0.5:
-            segs[i] = rng.choice(["zz", "junk", "v1", "A", "S"])
+            segs[i] = rng.choice(["zz", "yy", "junk", "v1", "A", "S"])
         elif r < 0.7:
             segs = segs + [rng.choice(["extra", "ma", "v001"])]
         elif r < 0.85:
